@@ -2,10 +2,11 @@
 import re
 import z3
 
-from mirsym.api import (Ob, guard, ev_is, is_write, vname, ret_shape, derived_from, uid_of, Opaque, Agg, Ref, MLS_MUTATORS)
+from mirsym.api import (Ob, guard, StatePath, ev_is, is_write, vname, ret_shape, derived_from, uid_of, Opaque, Agg, Ref, MLS_MUTATORS)
 from mirsym import contracts as C
 from mirsym import models as M
 from props.C05 import first, all_ev, res_ok
+from mirsym import snapmodel as SM
 
 EXPLANATION = ('Symbolic execution (z3) of the MIR of the commit paths and of the epoch-snapshot manager. E3: on every path of every mdk-core '
                'function that can merge a commit, a snapshot of the pre-merge epoch taken with the wrapper id/timestamp precedes the merge; the '
@@ -236,6 +237,116 @@ def o7(tier):
     return ob.done(cases=len(paths))
 
 
+@guard
+def o1(tier):
+    """is_better_candidate == MIP-03 strict order against the tracked snapshot of that epoch"""
+    import itertools
+    from props.snapharness import Harness, sequences
+    from props.C20 import GID, cid
+    K = 2 if tier == 'quick' else 3
+    ob = Ob('O1', f'is_better_candidate(e, ts, id) <=> a snapshot for epoch e is tracked, its timestamp is known, and (ts, id) < (applied ts, applied id) lexicographically, '
+                  f'after every sequence of <= {K} create/rollback steps (retention 0..3, all u64 timestamps, 256-bit ids); in particular irreflexive')
+    h = Harness(ob)
+    r = z3.BitVec('retention', 64)
+    total = n_true = 0
+    for seq in sequences(K):
+        states = h.start(r, [z3.ULE(r, 3)])
+        for i, step in enumerate(seq):
+            nxt = []
+            for st, mgr, ref in states:
+                if step == 'C':
+                    e, t, c = z3.BitVec(f'e{i}', 64), z3.BitVec(f't{i}', 64), cid(i)
+                    for p in h.create(st, mgr, GID, e, c, t):
+                        ref2 = h.ref_create(p.st, ref, r, e, c, t)
+                        if ref2 is not None:
+                            nxt.append((p.st, mgr, ref2))
+                else:
+                    e = z3.BitVec(f'target{i}', 64)
+                    for p in h.rollback(st, mgr, GID, e):
+                        ref2, found = h.ref_rollback(p.st, ref, e)
+                        if ref2 is not None:
+                            nxt.append((p.st, mgr, ref2))
+            states = nxt
+        ce, ct, cc = z3.BitVec('cand_epoch', 64), z3.BitVec('cand_ts', 64), z3.BitVec('cand_id', 256)
+        for st, mgr, ref in states:
+            for p in h.better(st, mgr, GID, ce, ct, cc):
+                total += 1
+                spec = h.ref_better(ref, ce, ct, cc, p.st)
+                if not ob.require(spec is not None, 'O1/epoch-undecided', 'is_better_candidate does not decide which tracked snapshot has the candidate epoch', p):
+                    continue
+                ob.prove(p, p.ret == spec, 'O1/not-mip03-order', 'is_better_candidate differs from the MIP-03 rule (earlier timestamp, then smaller id) against the commit applied at that epoch')
+                if ob.eng.prove(p, p.ret)[0]:
+                    n_true += 1
+                # irreflexive: the applied commit re-offered is never better than itself
+                for e_ in ref:
+                    ob.prove(p, z3.Implies(z3.And(ce == e_['epoch'], ct == e_['ts'], cc == e_['cid'],
+                                                  z3.And([z3.Or(x is e_, x['epoch'] != e_['epoch']) for x in ref[:ref.index(e_)]]) if ref.index(e_) else z3.BoolVal(True)), z3.Not(p.ret)),
+                             'O1/better-than-itself', 'the commit already applied at an epoch is reported as a better candidate than itself (re-delivery would trigger a rollback)')
+    ob.require(n_true >= 2 and total >= 10, 'O1/vacuity', f'true answers {n_true} of {total}')
+    ob.r.bounds = {'steps before the query': K, 'retention': '0..3', 'timestamps/epochs': 'all u64', 'ids': 'all 256-bit values'}
+    ob.r.assumptions += SM_ASSUMPTIONS()
+    ob.r.vacuity.append(f'{total} query paths, {n_true} answering true')
+    return ob.done(cases=total)
+
+
+def SM_ASSUMPTIONS():
+    from mirsym import snapmodel
+    return snapmodel.ASSUMPTIONS + ['a real wrapper timestamp is never 0 (0 is the marker for "unknown after restart", see C11)']
+
+
+@guard
+def o2(tier):
+    """the applied commit is the MIP-03 minimum whatever the arrival order"""
+    import itertools
+    from props.snapharness import Harness
+    from props.C20 import GID
+    N = 2 if tier == 'quick' else 3
+    ob = Ob('O2', f'driving create_snapshot / is_better_candidate / rollback_to_epoch as handle_processing_error does: for {N} competing commits of one epoch with symbolic (timestamp, id) '
+                  'including ties, in every arrival order, the commit recorded as applied at the end is the lexicographic minimum and a rollback happens exactly at strict improvements')
+    h = Harness(ob)
+    ts = [z3.BitVec(f'ts{i}', 64) for i in range(N)]
+    ids = [z3.BitVec(f'cid{i}', 256) for i in range(N)]
+    e = z3.BitVec('epoch', 64)
+    distinct = [ids[i] != ids[j] for i in range(N) for j in range(i + 1, N)] + [t != 0 for t in ts]
+    total = 0
+
+    def lt(i, j):
+        return z3.Or(z3.ULT(ts[i], ts[j]), z3.And(ts[i] == ts[j], z3.ULT(ids[i], ids[j])))
+    for order in itertools.permutations(range(N)):
+        states = [(st, mgr, None, 0) for st, mgr, _ in h.start(z3.BitVecVal(5, 64), distinct)]
+        for k, c in enumerate(order):
+            nxt = []
+            for st, mgr, applied, nrb in states:
+                if applied is None:
+                    for p in h.create(st, mgr, GID, e, ids[c], ts[c]):
+                        nxt.append((p.st, mgr, c, 0))
+                    continue
+                for p in h.better(st, mgr, GID, e, ts[c], ids[c]):
+                    total += 1
+                    for s2, b in M.bool_cases(ob.eng, p.st, p.ret):
+                        if not b:
+                            nxt.append((s2, mgr, applied, nrb)); continue
+                        for p2 in h.rollback(s2, mgr, GID, e):
+                            if not ob.require(vname(p2.ret) == 'Ok', 'O2/rollback-fails', 'better candidate recognised but rollback_to_epoch fails', p2):
+                                continue
+                            for p3 in h.create(p2.st, mgr, GID, e, ids[c], ts[c]):
+                                nxt.append((p3.st, mgr, c, nrb + 1))
+            states = nxt
+        for st, mgr, applied, nrb in states:
+            total += 1
+            claims = [(z3.Not(lt(c, applied)), 'O2/not-minimum', f'arrival order {order}: the commit finally applied is not the MIP-03 minimum of the commits offered') for c in range(N) if c != applied]
+            ob.prove_all(StatePath(st), claims)
+            q = SM.queue_of(ob.eng, st, mgr, GID)
+            ob.require(len(q) == 1, 'O2/queue', f'{len(q)} snapshots tracked for one epoch after the race', None)
+            if q:
+                f_ = SM.snap_fields(q[0])
+                ob.prove(st.pc, z3.And(SM.id_bv(f_['applied_commit_id']) == ids[applied], f_['applied_commit_ts'] == ts[applied]), 'O2/recorded-commit', 'the snapshot does not record the commit that was applied last')
+    ob.r.bounds = {'competing commits': N, 'arrival orders': 'all permutations', 'timestamps': 'all non-zero u64 (ties included)', 'ids': 'all distinct 256-bit values'}
+    ob.r.assumptions += SM_ASSUMPTIONS()
+    ob.r.vacuity.append(f'{total} decision points over all arrival orders')
+    return ob.done(cases=total)
+
+
 def run(tier, seed, only=None):
-    obs = [('O4', o4), ('O5', o5), ('O6', o6), ('O7', o7)]
+    obs = [('O1', o1), ('O2', o2), ('O4', o4), ('O5', o5), ('O6', o6), ('O7', o7)]
     return [f(tier) for k, f in obs if not only or k in only]
